@@ -26,9 +26,9 @@ def _scenes(ctx):
     mixed = {"min_x": "pec", "max_x": "pmc", "min_z": "pml", "max_z": "pml"}
     base = [
         ("periodic-energy", {"shape": [6, 6, 6], "T": 9, "bounds": per, "sources": [{"pos": [3, 3, 3], "pol": 0}], "slab": {"lo": [0, 0, 2], "hi": [6, 6, 4], "eps": 2.0},
-                             "detectors": [{"kind": "energy", "name": "en", "lo": [1, 1, 1], "hi": [5, 5, 5]}]}, [0, 2]),
-        ("pmlz-field", {"shape": [6, 6, 10], "T": 11, "bounds": pmlz, "pml": 3, "sources": [{"pos": [3, 3, 5], "pol": 1}], "slab": {"lo": [0, 0, 4], "hi": [6, 6, 6], "eps": 3.0},
-                        "detectors": [{"kind": "field", "name": "fd", "lo": [2, 2, 4], "hi": [4, 4, 7], "switch": {"interval": 2}}]}, [0, 3]),
+                             "detectors": [{"kind": "energy", "name": "en", "lo": [1, 1, 1], "hi": [5, 5, 5]}]}, [0, 1]),  # T=9,K=1: boundary 4.5 (round-half-even tie)
+        ("pmlz-field", {"shape": [6, 6, 10], "T": 10, "bounds": pmlz, "pml": 3, "sources": [{"pos": [3, 3, 5], "pol": 1}], "slab": {"lo": [0, 0, 4], "hi": [6, 6, 6], "eps": 3.0},
+                        "detectors": [{"kind": "field", "name": "fd", "lo": [2, 2, 4], "hi": [4, 4, 7], "switch": {"interval": 2}}]}, [3]),  # T=10,K=3: boundaries 2.5, 5, 7.5 (ties)
         ("pmlall-poynting", {"shape": [9, 9, 9], "T": 10, "bounds": pmlall, "pml": 2, "sources": [{"pos": [4, 4, 4], "pol": 2}, {"pos": [3, 5, 4], "pol": 0, "kind": "mdipole"}],
                              "detectors": [{"kind": "poynting", "name": "pf", "lo": [3, 3, 6], "hi": [6, 6, 7], "axis": 2}]}, [0, 9]),
         ("mixed-walls", {"shape": [6, 6, 10], "T": 8, "bounds": mixed, "pml": 3, "sources": [{"pos": [3, 3, 5], "pol": 1}], "slab": {"lo": [1, 1, 4], "hi": [5, 5, 6], "eps": 2.5, "mu": 1.5},
